@@ -29,6 +29,19 @@ Model
   current thread keeps running while enabled, else the lowest enabled id runs.
   Other policies: `PreemptPolicy` (non-preemptive by priority + explicit deviations, for
   iterative preemption bounding) and `RandomPolicy` (seeded).
+* TIMED operations (`Event.wait(timeout)`, `Condition.wait(timeout)`, `Lock.acquire(timeout=t)`
+  with t > 0) are NONDETERMINISTIC: the thread is enabled when the operation can succeed,
+  and as long as it cannot, *letting its timeout expire* is a separate choice of the
+  scheduler, written as the NEGATIVE thread id in a schedule (`-3` = "thread 3's timed wait
+  times out now": the wait returns False / the acquire fails, and the thread runs on).
+  A policy sees the candidates in `policy.timeoutable` (tuple of thread ids, set before every
+  `choose`) and may return `-t`; `ListPolicy` replays negative entries, `PreemptPolicy`
+  takes them as deviations (so preemption bounding fires at most k timeouts), `RandomPolicy`
+  fires one with probability `p_timeout`.  No timeout ever fires by default.  When no thread
+  is enabled but some are timeoutable, the lowest such timeout is FORCED (recorded in
+  `Result.forced_timeouts`) - real time would pass - but at most `max_timeouts` timeouts
+  (default 6) fire in one run; after that the state is reported as a deadlock
+  (`info["timeouts_exhausted"]`): the system only keeps going by timing out, i.e. a livelock.
 * Deadlock (some thread unfinished, none enabled) and an exhausted step budget are
   *reported* (`Result.deadlock`, `Result.budget_exceeded`, and an observer event
   `"deadlock"` / `"budget"`), never a hang: all parked threads are then unwound with
@@ -47,7 +60,8 @@ Observation
 `observer(tid, kind, obj, info)` is called in the running logical thread right AFTER it has
 performed an operation (while it still has exclusive control), `obj` being the shim object
 (`.name` such as "L1", "E3"; `.idx` creation index per class) or None; `info` a dict.
-Kinds: acquire, release, newevent, wait, set, clear, is_set, tryacquire, wait_timeout,
+Kinds: acquire, release, newevent, wait, set, clear, is_set, tryacquire, wait_timeout (a timed
+wait whose timeout expired; info["value"] is what it returned), acquire_timeout,
 cond_wait, cond_wake, notify, plus the kinds passed to `emit`, plus "crash" (uncaught
 exception in a logical thread, info["exc"]), "deadlock", "budget" (tid 0, from the
 controller).  Line yield points are not observed (they are stuttering steps) but are counted.
@@ -105,9 +119,11 @@ class PreemptPolicy:
                 return t
         return enabled[0]
 
+    timeoutable = ()
+
     def choose(self, step, enabled, current):
         d = self.deviations.get(step)
-        if d is not None and d in enabled:
+        if d is not None and (d in enabled or (d < 0 and -d in self.timeoutable)):
             return d
         return self.default(enabled, current)
 
@@ -116,11 +132,16 @@ class RandomPolicy:
     """Seeded random walk: with probability p_switch pick a random enabled thread, else
     continue the current one (if enabled)."""
 
-    def __init__(self, seed, p_switch=0.2):
+    timeoutable = ()
+
+    def __init__(self, seed, p_switch=0.2, p_timeout=0.1):
         self.rnd = random.Random(seed)
         self.p = p_switch
+        self.pt = p_timeout
 
     def choose(self, step, enabled, current):
+        if self.timeoutable and self.rnd.random() < self.pt:
+            return -self.timeoutable[self.rnd.randrange(len(self.timeoutable))]
         if current in enabled and self.rnd.random() >= self.p:
             return current
         return enabled[self.rnd.randrange(len(enabled))]
@@ -133,6 +154,9 @@ class Result:
         self.enabled = []  # tuple of enabled ids at each step
         self.default = []  # what a PreemptPolicy would have chosen without deviation (or None)
         self.kinds = []  # kind of the operation performed at each step ("line", "acquire", ...)
+        self.timeoutable = []  # tuple of thread ids whose timed operation could have been timed out, per step
+        self.timeouts = 0  # timeouts fired (chosen or forced)
+        self.forced_timeouts = []  # (step, tid): fired because nothing else could run
         self.substitutions = []  # (step, wanted, ran)
         self.deadlock = False
         self.budget_exceeded = False
@@ -181,7 +205,7 @@ def _put_worker(w):
 
 
 class _LT:
-    __slots__ = ("tid", "fn", "args", "gate", "pending", "finished", "thread", "started", "done")
+    __slots__ = ("tid", "fn", "args", "gate", "pending", "finished", "thread", "started", "done", "timed_out")
 
     def __init__(self, tid, fn, args):
         self.tid = tid
@@ -195,13 +219,16 @@ class _LT:
         self.started = False
         self.done = _thread.allocate_lock()
         self.done.acquire()
+        self.timed_out = False
 
 
 # ------------------------------------------------------------------------------ scheduler
 class Scheduler:
-    def __init__(self, policy, max_steps=20000, trace_codes=(), observer=None, line_filter=None, opcode_level=False):
+    def __init__(self, policy, max_steps=20000, trace_codes=(), observer=None, line_filter=None, opcode_level=False,
+                 max_timeouts=6):
         self.policy = policy
         self.max_steps = max_steps
+        self.max_timeouts = max_timeouts  # timeouts of timed operations fired per run (chosen or forced)
         self.trace_codes = frozenset(trace_codes)
         self.line_filter = line_filter  # optional predicate (code, lineno) -> bool
         # opcode_level: also yield between the BYTECODES of the traced code objects (a thread can then be
@@ -241,11 +268,15 @@ class Scheduler:
         return lt.tid if lt is not None else None
 
     # -- yield points (called from logical threads)
-    def yield_point(self, kind, obj=None, enabled=None):
+    def yield_point(self, kind, obj=None, enabled=None, timed=False):
+        """Park the calling logical thread before an operation.  Returns True when it was
+        scheduled normally, "timeout" when `timed` and the scheduler let the timeout expire,
+        False when the caller is not a logical thread (or the run is being aborted)."""
         lt = self._by_ident.get(_thread.get_ident())
         if lt is None or self.aborting:
             return False
-        lt.pending = (kind, obj, enabled)
+        lt.pending = (kind, obj, enabled, timed)
+        lt.timed_out = False
         if self._starting:
             self._ctl.release()
             lt.gate.acquire()
@@ -261,6 +292,9 @@ class Scheduler:
         self.result.kinds.append(kind)
         if kind == "line":
             self.result.line_steps += 1
+        if lt.timed_out:
+            lt.timed_out = False
+            return "timeout"
         return True
 
     def observe(self, kind, obj=None, **info):
@@ -344,27 +378,50 @@ class Scheduler:
         if not live:
             return None
         enabled = sorted(lt.tid for lt in live if self._is_enabled(lt))
+        can_time = res.timeouts < self.max_timeouts
+        timeoutable = tuple(sorted(lt.tid for lt in live if can_time and lt.pending is not None and len(lt.pending) > 3
+                                   and lt.pending[3] and lt.tid not in enabled))
+        step = res.steps
+        if not enabled and timeoutable and step < self.max_steps:
+            # nothing can run, but real time would pass: the lowest timed operation times out
+            tid = timeoutable[0]
+            res.forced_timeouts.append((step, tid))
+            return self._fire(step, -tid, enabled, timeoutable)
         if not enabled:
             res.deadlock = True
             for lt in live:
                 p = lt.pending
                 res.blocked[lt.tid] = (p[0], getattr(p[1], "name", "")) if p else ("?", "")
             return None
-        step = res.steps
         if step >= self.max_steps:
             res.budget_exceeded = True
             return None
+        try:
+            self.policy.timeoutable = timeoutable
+        except AttributeError:
+            pass
         want = self.policy.choose(step, enabled, self._current)
         tid = want
+        if isinstance(tid, int) and tid < 0 and -tid in timeoutable:
+            return self._fire(step, tid, enabled, timeoutable)
         if tid not in enabled:
             tid = enabled[0]
             res.substitutions.append((step, want, tid))
+        return self._fire(step, tid, enabled, timeoutable)
+
+    def _fire(self, step, tid, enabled, timeoutable):
+        res = self.result
         res.ran.append(tid)
         res.enabled.append(tuple(enabled))
-        res.default.append(self.policy.default(enabled, self._current) if self._has_default else None)
-        self._current = tid
+        res.timeoutable.append(timeoutable)
+        res.default.append(self.policy.default(enabled, self._current) if self._has_default and enabled else None)
+        lt = self._threads[abs(tid)]
+        if tid < 0:
+            lt.timed_out = True
+            res.timeouts += 1
+        self._current = abs(tid)
         res.steps = step + 1
-        return self._threads[tid]
+        return lt
 
     def run(self):
         res = self.result
@@ -380,7 +437,8 @@ class Scheduler:
             first.gate.release()
             self._ctl.acquire()  # released by the thread whose _dispatch() returned None
         if res.deadlock:
-            self._controller_event("deadlock", blocked=sorted(res.blocked))
+            self._controller_event("deadlock", blocked=sorted(res.blocked),
+                                   timeouts_exhausted=bool(res.timeouts >= self.max_timeouts and res.timeouts))
         elif res.budget_exceeded:
             self._controller_event("budget", steps=res.steps)
         if any(not lt.finished for lt in self._order):
@@ -430,6 +488,14 @@ class ShimLock(_Obj):
             if self.owner is not None:
                 raise RuntimeError("shim lock %s is held and the caller is not a scheduled thread" % self.name)
             self.owner = me
+            return True
+        if blocking and timeout is not None and timeout > 0:
+            how = s.yield_point("acquire", self, lambda: self.owner is None, timed=True)
+            if how == "timeout":
+                s.observe("acquire_timeout", self)
+                return False
+            self.owner = me
+            s.observe("acquire", self)
             return True
         if not blocking or (timeout is not None and timeout >= 0):
             s.yield_point("tryacquire", self)
@@ -532,12 +598,10 @@ class ShimEvent(_Obj):
             if not self.flag and timeout is None:
                 raise RuntimeError("shim event %s is not set and the caller is not a scheduled thread" % self.name)
             return self.flag
-        if timeout is not None:
-            # a timed wait may always time out: it returns the flag as of when it is scheduled
-            s.yield_point("wait_timeout", self)
+        how = s.yield_point("wait", self, lambda: self.flag, timed=timeout is not None)
+        if how == "timeout":  # the scheduler chose to let the timeout expire while the event was unset
             s.observe("wait_timeout", self, value=self.flag)
             return self.flag
-        s.yield_point("wait", self, lambda: self.flag)
         s.observe("wait", self)
         return True
 
@@ -574,10 +638,11 @@ class ShimCondition(_Obj):
         if hasattr(self._lock, "count"):
             self._lock.count = 0
         s.observe("cond_wait", self)
-        if timeout is None:
-            s.yield_point("cond_wake", self, lambda: me in self._notified and self._lock.owner is None)
-        else:
-            s.yield_point("cond_wake", self, lambda: self._lock.owner is None)
+        how = s.yield_point("cond_wake", self, lambda: me in self._notified and self._lock.owner is None,
+                            timed=timeout is not None)
+        if how == "timeout":
+            # the wait timed out; the lock still has to be re-acquired
+            s.yield_point("cond_reacquire", self, lambda: self._lock.owner is None)
         got = me in self._notified
         self._notified.discard(me)
         if me in self._waiting:
@@ -635,10 +700,11 @@ class Shim:
 
 
 # ------------------------------------------------------------------------------ enumeration helpers
-def deviations_of(result, after=-1, kinds=None):
+def deviations_of(result, after=-1, kinds=None, timeouts=True):
     """All single deviations applicable to a finished run: (step, tid) for every step > after
-    and every enabled thread other than the one that ran.  `kinds`: restrict to steps whose
-    operation kind is in the set (e.g. {"line"})."""
+    and every enabled thread other than the one that ran, plus (step, -tid) for every thread
+    whose timed operation could have been timed out at that step (`timeouts`).  `kinds`:
+    restrict to steps whose operation kind is in the set (e.g. {"line"})."""
     out = []
     for i, (ran, en) in enumerate(zip(result.ran, result.enabled)):
         if i <= after:
@@ -648,6 +714,10 @@ def deviations_of(result, after=-1, kinds=None):
         for t in en:
             if t != ran:
                 out.append((i, t))
+        if timeouts and i < len(result.timeoutable):
+            for t in result.timeoutable[i]:
+                if -t != ran:
+                    out.append((i, -t))
     return out
 
 
@@ -692,6 +762,25 @@ def _selfcheck(rounds=200):
         s.spawn(2, spin)
         r = s.run()
         assert r.budget_exceeded and r.steps == 50
+        # timed wait: never fires by default; fires when chosen (-1); forced + exhausted -> deadlock
+        for sch, want in (([2, 1], [True]), ([-1, 2], [False]), ([-1], [False])):
+            got = []
+            s = Scheduler(ListPolicy(sch), max_timeouts=3)
+            e3 = s.shim.Event()
+            s.spawn(1, lambda: got.append(e3.wait(5.0)))
+            s.spawn(2, e3.set)
+            r = s.run()
+            assert got == want and not r.deadlock, (sch, got, r.ran)
+        s = Scheduler(ListPolicy([]), max_timeouts=3)
+        e4 = s.shim.Event()
+
+        def poll():
+            while not e4.wait(1.0):
+                pass
+
+        s.spawn(1, poll)
+        r = s.run()
+        assert r.deadlock and r.timeouts == 3 and len(r.forced_timeouts) == 3, (r.deadlock, r.timeouts)
     return "sched selfcheck ok: %d rounds in %.1fs" % (rounds, time.time() - t0)
 
 
